@@ -608,13 +608,14 @@ func waitExpectAll(e *waitEnv, r *waitResult, sd *waitSide, calls []*waitCall, c
 	r.Outcome = waitClasses(calls)
 	for _, c := range calls {
 		if !c.returned() {
-			r.violate(keyMissing, "%s: %s#%d still blocked %v after %s (calls: %s)", e.name, c.kind, c.idx, waitMargin, what, waitJoin(waitClasses(calls)))
+			r.violate(keyMissing, "%s: a %s call is still blocked %v after %s (calls: %s)", e.name, c.kind, waitMargin, what, waitJoin(waitClasses(calls)))
 			return
 		}
 	}
 	for _, c := range calls {
 		if c.class == "timeout" && !notBefore.IsZero() && c.at.Before(notBefore) {
-			r.violate(keyEarly, "%s: %s#%d returned a timeout %v before the deadline in force", e.name, c.kind, c.idx, notBefore.Sub(c.at).Round(time.Millisecond))
+			e.logf("%s#%d: timeout %v before the deadline in force", c.kind, c.idx, notBefore.Sub(c.at).Round(time.Millisecond))
+			r.violate(keyEarly, "%s: a %s call returned a timeout before the deadline in force (calls: %s)", e.name, c.kind, waitJoin(waitClasses(calls)))
 			return
 		}
 	}
@@ -686,7 +687,7 @@ func waitScDeadlineChange(sd *waitSide, seq string, n int) func(*waitEnv, *waitR
 		case "none-then-set":
 			sd.setDl(e, time.Time{})
 		case "set-later":
-			sd.setDl(e, time.Now().Add(waitDl))
+			sd.setDl(e, time.Now().Add(2*waitDl))
 		default:
 			sd.setDl(e, time.Now().Add(waitFar))
 		}
@@ -697,7 +698,7 @@ func waitScDeadlineChange(sd *waitSide, seq string, n int) func(*waitEnv, *waitR
 		var dl time.Time
 		switch seq {
 		case "set-later":
-			dl = time.Now().Add(3 * waitDl)
+			dl = time.Now().Add(4 * waitDl)
 		case "set-zero-set":
 			sd.setDl(e, time.Time{})
 			e.logf("deadline cleared")
@@ -748,7 +749,7 @@ func waitScCleared(sd *waitSide) func(*waitEnv, *waitResult, *waitScenario) {
 			if sd.kind == "Accept" {
 				key = sd.dlKey("cleared")
 			}
-			r.violate(key, "%s: %s returned %s although its deadline had been cleared %v before it", e.name, sd.kind, calls[0].class, (2*waitDl - waitSep).Round(time.Millisecond))
+			r.violate(key, "%s: %s returned %s at a deadline that had been cleared before it expired", e.name, sd.kind, calls[0].class)
 			return
 		}
 		if err := sd.wake(e, 1); err != nil {
@@ -1017,7 +1018,8 @@ func TestVerifC13(t *testing.T) {
 		}
 		outcomes[r.Name] = r.Outcome
 		for _, v := range r.violations {
-			rep.violate(v.key, v.what, map[string]any{"scenario": r.Name, "seed": vSeed(), "jitter_ms": sc.jitter.Milliseconds(), "outcome": r.Outcome, "events": r.Log,
+			// (the timed event log of the run is in C13.log; the replay is the script's identity)
+			rep.violate(v.key, v.what, map[string]any{"scenario": r.Name, "seed": vSeed(), "jitter_ms": sc.jitter.Milliseconds(), "outcome": r.Outcome,
 				"how": "VERIF_C13_ONLY='" + strings.Split(r.Name, "/round=")[0] + "' bin/check C13 --quick"})
 		}
 		if i < 400 && len(r.violations) == 0 {
